@@ -5,6 +5,7 @@ import (
 	"encoding/json"
 	"fmt"
 	"math"
+	"math/big"
 	"reflect"
 	"strings"
 	"time"
@@ -151,8 +152,11 @@ type mctx struct {
 	// noDirect: the entry changes the CONTENT of a supplement element. The supplement is the node's own data; ValidateBlock
 	// checks it against the accumulator before any transaction sees it, so such mutants go through ValidateBlock only.
 	noDirect bool
-	class    string      // when set, replaces the entry's class in keys (classes that depend on the transaction)
-	created  *createdIDs // ids of the elements the block creates, by kind (material for ids of another kind)
+	// the slowest guarded call of the mutant (observation)
+	slowSec              float64
+	slowEntry, slowStack string
+	class                string      // when set, replaces the entry's class in keys (classes that depend on the transaction)
+	created              *createdIDs // ids of the elements the block creates, by kind (material for ids of another kind)
 }
 
 // createdIDs: elements created by the base block, in creation order.
@@ -473,6 +477,8 @@ func (m *mctx) apply(e ext) bool {
 		}
 	}
 	switch e.Fam {
+	case "complement":
+		return m.applyComplement(e)
 	case "confuse":
 		// ids of the elements the transactions of the block create, by kind, in order
 		var sc, sf, fc []types.Hash256
@@ -628,8 +634,8 @@ func (m *mctx) apply(e ext) bool {
 			idx = []uint64{0, 0}
 		case "unsorted":
 			idx = []uint64{1, 0}
-		case "40000x0":
-			idx = make([]uint64, 40000)
+		case "16000x0":
+			idx = make([]uint64, 16000)
 		case "all+len":
 			for i := 0; i <= n; i++ {
 				idx = append(idx, uint64(i))
@@ -823,6 +829,187 @@ func minID[V any](mp map[types.Hash256]V) (types.Hash256, bool) {
 		}
 	}
 	return best, found
+}
+
+// preCheckTotal is the sum the overflow pre-check of the target transaction's version forms (validateCurrencyOverflow /
+// validateV2CurrencyOverflow), as an exact integer; for the v1 member "fee", which the pre-check leaves out, the sum that
+// validateSiacoins forms with its own check (outputs, contract payouts, fees). ok=false: a renter + host sum alone overflows.
+func (m *mctx) preCheckTotal(member string) (total *big.Int, ok bool) {
+	total = new(big.Int)
+	add := func(c types.Currency) { total.Add(total, c.Big()) }
+	outs := func(os []types.SiacoinOutput) {
+		for _, o := range os {
+			add(o.Value)
+		}
+	}
+	if txn := m.v1(); txn != nil {
+		outs(txn.SiacoinOutputs)
+		if member == "fee" {
+			for _, fc := range txn.FileContracts {
+				add(fc.Payout)
+			}
+			for _, f := range txn.MinerFees {
+				add(f)
+			}
+			return total, true
+		}
+		for _, fc := range txn.FileContracts {
+			add(fc.Payout)
+			outs(fc.ValidProofOutputs)
+			outs(fc.MissedProofOutputs)
+		}
+		for _, r := range txn.FileContractRevisions {
+			outs(r.FileContract.ValidProofOutputs)
+			outs(r.FileContract.MissedProofOutputs)
+		}
+		return total, true
+	}
+	if txn := m.v2(); txn != nil {
+		ok = true
+		contract := func(fc types.V2FileContract) {
+			add(fc.RenterOutput.Value)
+			add(fc.HostOutput.Value)
+			add(fc.MissedHostValue)
+			add(fc.TotalCollateral)
+			rh := new(big.Int).Add(fc.RenterOutput.Value.Big(), fc.HostOutput.Value.Big())
+			if rh.BitLen() > 128 {
+				ok = false
+			}
+			total.Add(total, rh.Div(rh, big.NewInt(25)))
+		}
+		outs(txn.SiacoinOutputs)
+		for _, fc := range txn.FileContracts {
+			contract(fc)
+		}
+		for _, r := range txn.FileContractRevisions {
+			contract(r.Revision)
+		}
+		for _, r := range txn.FileContractResolutions {
+			if ren, is := r.Resolution.(*types.V2FileContractRenewal); is && ren != nil {
+				contract(ren.NewContract)
+				add(ren.FinalRenterOutput.Value)
+				add(ren.FinalHostOutput.Value)
+				add(ren.RenterRollover)
+				add(ren.HostRollover)
+			}
+		}
+		add(txn.MinerFee)
+		return total, ok
+	}
+	return total, false
+}
+
+// applyComplement sets the member to the largest value for which the pre-checked sum does not exceed 2^128-1 ("rest"), or one
+// less / one more.
+func (m *mctx) applyComplement(e ext) bool {
+	if txn := m.v2(); txn != nil && strings.HasPrefix(e.T, "ren.") {
+		// slots of a renewal point into the shared resolution object: give the mutant its own copy first
+		for i := range txn.FileContractResolutions {
+			if ren, is := txn.FileContractResolutions[i].Resolution.(*types.V2FileContractRenewal); is && ren != nil {
+				c := *ren
+				txn.FileContractResolutions[i].Resolution = &c
+			}
+		}
+	}
+	slots := m.curSlots(e.T)
+	if len(slots) == 0 || m.unknown != "" {
+		return false
+	}
+	slot := slots[0]
+	max := types.MaxCurrency.Big()
+	fits := func(v *big.Int) bool {
+		*slot = types.NewCurrency(new(big.Int).And(v, new(big.Int).SetUint64(math.MaxUint64)).Uint64(), new(big.Int).Rsh(v, 64).Uint64())
+		t, ok := m.preCheckTotal(e.T)
+		return ok && t.Cmp(max) <= 0
+	}
+	if !fits(new(big.Int)) {
+		return false // the rest alone exceeds the range
+	}
+	lo, hi := new(big.Int), new(big.Int).Set(max) // largest v in [lo, hi] that fits
+	for lo.Cmp(hi) < 0 {
+		mid := new(big.Int).Add(lo, hi)
+		mid.Add(mid, big.NewInt(1)).Rsh(mid, 1)
+		if fits(mid) {
+			lo = mid
+		} else {
+			hi = mid.Sub(mid, big.NewInt(1))
+		}
+	}
+	v := lo
+	switch e.X {
+	case "rest-1":
+		if v.Sign() == 0 {
+			return false
+		}
+		v = new(big.Int).Sub(v, big.NewInt(1))
+	case "rest+1":
+		if v.Cmp(max) >= 0 {
+			return false
+		}
+		v = new(big.Int).Add(v, big.NewInt(1))
+	case "rest":
+	default:
+		m.unknown = "complement variant " + e.X
+		return false
+	}
+	*slot = types.NewCurrency(new(big.Int).And(v, new(big.Int).SetUint64(math.MaxUint64)).Uint64(), new(big.Int).Rsh(v, 64).Uint64())
+	return true
+}
+
+// decodable reports whether the target transaction of the mutant is a value a decoder of core hands over: it survives a round
+// trip (encode, decode, encode again: the same bytes) through the binary codec or through JSON.
+func (m *mctx) decodable() bool {
+	rt := func(enc func() ([]byte, error), dec func([]byte) (func() ([]byte, error), error)) (ok bool) {
+		defer func() {
+			if recover() != nil {
+				ok = false
+			}
+		}()
+		b, err := enc()
+		if err != nil {
+			return false
+		}
+		enc2, err := dec(b)
+		if err != nil {
+			return false
+		}
+		b2, err := enc2()
+		return err == nil && bytes.Equal(b, b2)
+	}
+	bin := func(v types.EncoderTo) func() ([]byte, error) {
+		return func() ([]byte, error) {
+			var buf bytes.Buffer
+			e := types.NewEncoder(&buf)
+			v.EncodeTo(e)
+			e.Flush()
+			return buf.Bytes(), nil
+		}
+	}
+	if txn := m.v1(); txn != nil {
+		return rt(bin(*txn), func(b []byte) (func() ([]byte, error), error) {
+			var t types.Transaction
+			d := types.NewBufDecoder(b)
+			t.DecodeFrom(d)
+			return bin(t), d.Err()
+		}) || rt(func() ([]byte, error) { return json.Marshal(*txn) }, func(b []byte) (func() ([]byte, error), error) {
+			var t types.Transaction
+			err := json.Unmarshal(b, &t)
+			return func() ([]byte, error) { return json.Marshal(t) }, err
+		})
+	}
+	if txn := m.v2(); txn != nil {
+		return rt(bin(*txn), func(b []byte) (func() ([]byte, error), error) {
+			var t types.V2Transaction
+			d := types.NewBufDecoder(b)
+			t.DecodeFrom(d)
+			return bin(t), d.Err()
+		}) || rt(func() ([]byte, error) { return json.Marshal(*txn) }, func(b []byte) (func() ([]byte, error), error) {
+			var t types.V2Transaction
+			err := json.Unmarshal(b, &t)
+			return func() ([]byte, error) { return json.Marshal(t) }, err
+		})
+	}
+	return true
 }
 
 func (m *mctx) applyParents(e ext) bool {
@@ -1317,14 +1504,6 @@ func (m *mctx) applyResolution(e ext) bool {
 		nc := fc
 		nc.ProofHeight, nc.ExpirationHeight, nc.RevisionNumber = m.child+1, m.child+3, 0
 		r.Resolution = &types.V2FileContractRenewal{FinalRenterOutput: fc.RenterOutput, FinalHostOutput: fc.HostOutput, NewContract: nc}
-	case "nil":
-		r.Resolution = nil
-	case "typed-nil-proof":
-		r.Resolution = (*types.V2StorageProof)(nil)
-	case "typed-nil-renewal":
-		r.Resolution = (*types.V2FileContractRenewal)(nil)
-	case "typed-nil-expiration":
-		r.Resolution = (*types.V2FileContractExpiration)(nil)
 	default:
 		m.unknown = "resolution variant " + e.X
 		return false
@@ -1978,13 +2157,24 @@ type ledgerOutcome struct {
 
 // exercise runs every validation entry point on the mutant under recover and the deadline; a block that passes
 // ValidateBlock is applied and reverted. It returns the first bad outcome (or none) and what was exercised.
-func (m *mctx) exercise(g *guard, count func(entry string, accepted bool)) *ledgerOutcome {
+func (m *mctx) exercise(g0 *guard, count func(entry string, accepted bool)) *ledgerOutcome {
 	bad := func(entry string, o outcome) *ledgerOutcome { return &ledgerOutcome{Entry: entry, O: o} }
+	cur := ""
+	g := timedGuard{g0, func(o outcome) {
+		if o.Seconds > m.slowSec {
+			m.slowSec, m.slowEntry, m.slowStack = o.Seconds, cur, o.SlowStack
+			if o.TimedOut {
+				m.slowStack = o.Stack
+			}
+		}
+	}}
+	cur = "ValidateHeader"
 	o := g.run(func() error { return consensus.ValidateHeader(m.cs, m.b.Header()) })
 	count("ValidateHeader", !o.Err && !o.bad())
 	if o.bad() {
 		return bad("ValidateHeader", o)
 	}
+	cur = "ValidateOrphan"
 	o = g.run(func() error { return consensus.ValidateOrphan(m.cs, m.b) })
 	count("ValidateOrphan", !o.Err && !o.bad())
 	if o.bad() {
@@ -1994,6 +2184,7 @@ func (m *mctx) exercise(g *guard, count func(entry string, accepted bool)) *ledg
 	if m.ver != 0 && !m.noDirect {
 		var prepErr bool
 		ms := consensus.NewMidState(m.cs)
+		cur = "(earlier transactions of the block)"
 		po := g.run(func() error {
 			nv1 := len(m.b.Transactions)
 			if m.ver == 1 {
@@ -2028,6 +2219,7 @@ func (m *mctx) exercise(g *guard, count func(entry string, accepted bool)) *ledg
 				if p := m.ts(); p != nil {
 					ts = *p
 				}
+				cur = "ValidateTransaction"
 				o = g.run(func() error { return consensus.ValidateTransaction(ms, *txn, ts) })
 				count("ValidateTransaction", !o.Err && !o.bad())
 				if o.bad() {
@@ -2035,11 +2227,13 @@ func (m *mctx) exercise(g *guard, count func(entry string, accepted bool)) *ledg
 				}
 			}
 			if txn := m.v2(); txn != nil {
+				cur = "ValidateTransactionElements"
 				o = g.run(func() error { return m.cs.Elements.ValidateTransactionElements(*txn) })
 				count("ValidateTransactionElements", !o.Err && !o.bad())
 				if o.bad() {
 					return bad("ValidateTransactionElements", o)
 				}
+				cur = "ValidateV2Transaction"
 				o = g.run(func() error { return consensus.ValidateV2Transaction(ms, *txn) })
 				count("ValidateV2Transaction", !o.Err && !o.bad())
 				if o.bad() {
@@ -2048,6 +2242,7 @@ func (m *mctx) exercise(g *guard, count func(entry string, accepted bool)) *ledg
 			}
 		}
 	}
+	cur = "ValidateBlock"
 	o = g.run(func() error { return consensus.ValidateBlock(m.cs, m.b, m.bs) })
 	accepted := !o.Err && !o.bad()
 	count("ValidateBlock", accepted)
@@ -2057,6 +2252,7 @@ func (m *mctx) exercise(g *guard, count func(entry string, accepted bool)) *ledg
 	if !accepted {
 		return nil
 	}
+	cur = "ApplyBlock"
 	o = g.run(func() error { consensus.ApplyBlock(m.cs, m.b, m.bs, time.Time{}); return nil })
 	count("ApplyBlock", !o.bad())
 	if o.bad() {
@@ -2064,6 +2260,7 @@ func (m *mctx) exercise(g *guard, count func(entry string, accepted bool)) *ledg
 		r.Accepted = true
 		return r
 	}
+	cur = "RevertBlock"
 	o = g.run(func() error { consensus.RevertBlock(m.cs, m.b, m.bs); return nil })
 	count("RevertBlock", !o.bad())
 	if o.bad() {
@@ -2072,6 +2269,18 @@ func (m *mctx) exercise(g *guard, count func(entry string, accepted bool)) *ledg
 		return r
 	}
 	return &ledgerOutcome{Entry: "", Accepted: true}
+}
+
+// timedGuard notes how long every guarded call took.
+type timedGuard struct {
+	g    *guard
+	note func(o outcome)
+}
+
+func (t timedGuard) run(f func() error) outcome {
+	o := t.g.run(f)
+	t.note(o)
+	return o
 }
 
 // ledgerSite: the outermost-but-one function of package consensus on the panic stack names the failing code narrowly.
